@@ -7,7 +7,7 @@ from . import common
 
 NAME = "U-det"
 TOOL = "verus"
-PROPS = ["C05", "C16"]
+PROPS = ["C05", "C09", "C16"]
 RLIMIT = 100
 TRUSTED = ["verus 0.2026.09.13 + z3", "A-vstd (HashMap/Vec specs)", "A-spec-hash-str (String as hash key)",
            "A-collect: Iterator::collect over HashMap::iter yields every entry exactly once, in an unspecified order",
@@ -339,6 +339,14 @@ def build(repo):
                 body_key = "%s" % base
         if "longname" in expr and not any(p.startswith("longname") for p in params):
             params.append("longname: String")
+        # any other free identifier of the rank expression is a name the site takes from its context: it becomes a &str parameter (arbitrary text)
+        declared = set(p.split(":")[0].strip() for p in params)
+        for fm_ in re.finditer(r"(?<![\w.])([a-z_]\w*)\b(?!\s*\()", expr):
+            ident = fm_.group(1)
+            if ident in declared or ident in ("self", "state", "as", "usize", "u32", "i32", "true", "false", "mut"):
+                continue
+            params.append("%s: &str" % ident)
+            declared.add(ident)
         e = expr.replace("state.", "self.")
         keyexpr = body_key
         if recv == "state":
@@ -372,15 +380,17 @@ def build(repo):
         self.%(field)s.insert(__key, %(ty)s { order: __rank, rest: 0 });
     }
 """ % {"idx": idx, "ln": ln, "how": how, "key": key, "expr": expr, "params": "".join(", " + p for p in params), "field": field, "e": e, "keyexpr": keyexpr, "ty": ty})
-    # literal drains: the statements between `self.literal_counter += res.1.len();` and the drain loop's header, and the header
+    # literal drains: the statements between `let res = self.<..>_ex(pairs)?;` and the drain loop's header, and the header
     drains = []
     for k, fname in enumerate(("parse_expr", "parse_expr_init_value"), 1):
         pf = comp.fn(fname, within="CompilerState")
         cuts.append(pf)
-        m = re.search(r"self\.literal_counter \+= res\.1\.len\(\);(.*?)\bfor (\w+) in ([^{]+?)\s*\{", pf.text, re.S)
+        m = re.search(r"let res = self\.\w+_ex\(pairs\)\?;(.*?)\bfor (\w+) in ([^{]+?)\s*\{", pf.text, re.S)
         if not m:
             raise Undecided("%s: literal drain loop not found" % fname)
         pre, var, it_expr = m.group(1), m.group(2), m.group(3).strip()
+        # the counter that names the literals (`cctmp<N>`): R8 -- `self.literal_counter` becomes the local `literal_counter` of the window
+        pre = re.sub(r"\bself\.literal_counter\b", "literal_counter", pre)
         pre = re.sub(r"//[^\n]*\n", "\n", pre)
         pre2, n1 = re.subn(r"res\.1\.iter\(\)\.collect\(\)", "collect_entries(&res.1)", pre)
         pre2, n2 = re.subn(r"(\w+)\.sort\(\);", r"sort_natural(&mut \1);", pre2)
@@ -389,11 +399,16 @@ def build(repo):
             it_expr = "(%s).iter()" % it_expr[1:]      # R12
         drains.append("""
     // literal drain of %(fname)s (src/compile.rs:%(ln)d): what the drain loop iterates must be a fixed function of the literal map
-    fn drain_%(k)d(res: &(Expr, HashMap<String, String>))
+    fn drain_%(k)d(res: &(Expr, HashMap<String, String>), literal_counter: usize)
+        requires literal_counter + res.1@.len() <= usize::MAX,
     {
         broadcast use vstd::std_specs::hash::group_hash_axioms;
         proof { axiom_string_key_model(); }
+        let ghost __lc0 = literal_counter;
+        let mut literal_counter = literal_counter;
 %(pre)s
+        // the literals of this expression were named cctmp<counter>, cctmp<counter+1>, ...: the next expression must start after them
+        assert(literal_counter == __lc0 + res.1@.len()); //@ C09,C05:drain-%(k)d-literal-counter-advanced
         proof {
             assert forall|i: int, j: int| 0 <= i < j < literals@.len() implies *(#[trigger] literals@[i]).0 != *(#[trigger] literals@[j]).0 by {
                 let a = choose|a: int| 0 <= a < __c0.len() && __c0[a] == literals@[i]; let b = choose|b: int| 0 <= b < __c0.len() && __c0[b] == literals@[j];
